@@ -17,14 +17,15 @@ RULE = ('Documents: fixtures; generated documents (charset E, markup-rich value 
         'non-trivial = distinct documents whose error messages echo >=1 markup canary.')
 ASSUMPTIONS = ['a segment without any element is listed as "SEG*~" by design of the formatter (don\'t-care)', 'messages of interchange/group/set level errors are not located (the property names segment- and element-level errors)',
                'blanks are rendered as &nbsp;: U+00A0 and U+0020 are identified when comparing']
-REQUIRED_COUNTERS = ['docs:composite-level-findings-with-markup-separator', 'docs:cut-off-with-markup-in-control-numbers', 'cli:invocations', 'cli:reports-compared', 'docs:envelope-element-findings', 'inputs:envelope-soup', 'docs', 'docs:with-errors', 'seg-lines-compared', 'messages-located', 'messages-with-canary', 'docs:multi-interchange', 'docs:other-delimiters']
+REQUIRED_COUNTERS = ['docs:composite-level-findings-with-markup-separator', 'docs:cut-off-with-markup-in-control-numbers', 'cli:invocations', 'cli:reports-compared', 'docs:envelope-element-findings', 'inputs:envelope-soup', 'docs', 'docs:with-errors', 'seg-lines-compared', 'messages-located', 'messages-with-format-directive', 'messages-with-canary', 'docs:multi-interchange', 'docs:other-delimiters']
 MIN_CASES = {'quick': 500, 'thorough': 15000}
 WATCHDOG_S = {'quick': 1200, 'thorough': 7200}
 
 TAGS = {'html', 'head', 'title', 'style', 'link', 'body', 'h1', 'h3', 'p', 'div', 'span', 'br', 'a'}
 ATTRS = {'class', 'style', 'rel', 'href', 'type'}
 CLASSES = {'seg', 'error', 'info', 'ele_err', 'segs'}
-CANARIES = ['<i>x</i>', '<script>alert(1)</script>', '&amp;', '"onx=', "'><b>", '&lt;b&gt;', ']]>', '&#60;', '<!--', '</span>', '<br />', '&nbsp;']
+CANARIES = ['<i>x</i>', '<script>alert(1)</script>', '&amp;', '"onx=', "'><b>", '&lt;b&gt;', ']]>', '&#60;', '<!--', '</span>', '<br />', '&nbsp;',
+            '%s', '%Z', '%%', '%(x)d', '100% ', '{0}', '{x!r}', '\\n', '$1']      # ... and text that is a directive for some formatting or templating step
 
 
 class P(html.parser.HTMLParser):
@@ -228,6 +229,8 @@ def judge(ctx, text, charset, case, sigs):
         if has_canary:
             canary_msgs += 1
             ctx.count('messages-with-canary')
+            if any(c in msg for c in ('%s', '%Z', '%%', '%(x)d', '100% ')):
+                ctx.count('messages-with-format-directive')
         if not any(m in t for t in near):
             anywhere = any(m in nb(t) for (k, t) in p.items if k == 'error')
             where = cursor_state(res.shape, er, line, [x[0] for x in src])
